@@ -217,7 +217,10 @@ OnSDone(g, e) ==
        Hit("C18.escape", TRUE))
 
 OnFinal(g, e) ==
-  MOut(g, Chk("C18.quiet", -1, e.stdout = "" /\ e.stderr = "" /\ e.loop_errors = 0), Hit("C18.quiet", TRUE))
+  MOut(g, Chk("C18.quiet", -1, e.stdout = "" /\ e.stderr = "" /\ e.loop_errors = 0)
+          (* the reply to a command whose method waits is written when that wait is over - not while the very same call, made
+             directly on the twin pool, is still waiting *)
+          \cup Chk("C18.await", -1, ~Has(e, "early") \/ Len(e.early) = 0), Hit("C18.quiet", TRUE))
 
 (* ---- records of runs over real sockets (harness/ctlsock.py): C19 ---------------------------------------------- *)
 SockMon(g0, e) ==
